@@ -19,7 +19,8 @@ fn rule_sets() -> Vec<(&'static str, Vec<Rule>)> {
     ]
 }
 
-const TAGS: [&str; 6] = ["1.2.3", "0.0.0", "1.2.3-rc.1", "1.2.3-alpha.5.post.2", "1.2.3.post3", "2!1.2.3"];
+// incl. tags that carry a post / dev / epoch part without a pre-release
+const TAGS: [&str; 9] = ["1.2.3", "0.0.0", "1.2.3-rc.1", "1.2.3-alpha.5.post.2", "1.2.3.post3", "2!1.2.3", "1.2.3-post.4", "1.2.3-epoch.2.post.4.dev.9", "1.2.3-dev.9"];
 const BRANCHES: [Option<&str>; 39] = [None, Some("main"), Some("develop"), Some("developx"), Some("release"), Some("release/1"), Some("release/1/x"), Some("release/x"),
     Some("release/x/7"), Some("release/007"), Some("releasex"), Some("release1"), Some("releases/2"), Some("feature/7/foo"), Some("99"), Some("a/b/10"), Some("a/3"),
     Some("feature/4294967296"), Some("fé"), Some("staging"), Some("qa/5"), Some("qa/x"), Some("qa"),
@@ -176,7 +177,7 @@ fn main() {
     cov.evaluations = all.get("runs") + all.get("resolve_for_branch_cases");
     cov.traces_validated = cov.evaluations;
     cov.distinct_nontrivial = all.get("active_cases");
-    cov.rule = format!("full product tag{TAGS:?} x {} branch names (incl. prefix-without-slash, digit segments, zero-padded, u32-overflowing, non-ASCII, absent) x distance[none,0,1,5] x dirty[unset,--dirty,--no-dirty,--clean] x --post x --pre-release-label x --pre-release-num x --post-mode x 4 rule sets{}, run through run_flow_pipeline with --output-format zerv on source none{} and compared field by field with R-FLOW; hash lengths 0..11 x branches x 2 tags against R-SIP; BranchRules::resolve_for_branch directly. non-trivial = active (dirty or ahead) cases", BRANCHES.len(), if ctx.quick() { " (quick: 3 tags, distance without 5)" } else { "" }, if ctx.quick() { " (+ a strided stdin slice)" } else { " and stdin" });
+    cov.rule = format!("full product tag{TAGS:?} x {} branch names (incl. prefix-without-slash, digit segments, zero-padded, u32-overflowing, non-ASCII, absent) x distance[none,0,1,5] x dirty[unset,--dirty,--no-dirty,--clean] x --post x --pre-release-label x --pre-release-num x --post-mode x 4 rule sets{}, run through run_flow_pipeline with --output-format zerv on source none{} and compared field by field with R-FLOW; hash lengths 0..11 x branches x 2 tags against R-SIP; BranchRules::resolve_for_branch directly. non-trivial = active (dirty or ahead) cases", BRANCHES.len(), if ctx.quick() { " (quick: 4 tags, distance without 5)" } else { "" }, if ctx.quick() { " (+ a strided stdin slice)" } else { " and stdin" });
     cov.exhaustive = true;
     cov.samples = vec![json!(argv(&cases[cases.len() / 2], &sets)), json!(argv(&cases[cases.len() - 3], &sets)), json!(argv(&hs[17], &sets))];
     cov.set("clause_counts", all.to_json());
@@ -187,7 +188,7 @@ fn main() {
 
 fn space(quick: bool, sets: &[(&'static str, Vec<Rule>)]) -> Vec<Case> {
     let mut v = vec![];
-    let tags: Vec<usize> = if quick { vec![0, 2, 3] } else { (0..TAGS.len()).collect() };
+    let tags: Vec<usize> = if quick { vec![0, 2, 3, 6] } else { (0..TAGS.len()).collect() };
     let distances: Vec<Option<u64>> = if quick { vec![None, Some(0), Some(1)] } else { vec![None, Some(0), Some(1), Some(5)] };
     let mut n = 0usize;
     for &tag in &tags { for branch in 0..BRANCHES.len() { for &distance in &distances { for dirty_flag in 0..4 { for post in [None, Some(7u64)] { for label in [None, Some("rc")] { for num in [None, Some(3u32)] { for mode in [None, Some("tag"), Some("commit")] { for rules in 0..sets.len() {
